@@ -186,6 +186,26 @@ PROPS = {
                         "effective-path naming is modelled on the fragment of EffPath.v (absolute names, slash-free non-empty SONAME)"],
         'partial': 'module overlap freedom follows from C13 ordering for target-derived modules; with partially overlapping caller-supplied mappings it needs the stated hypothesis',
     },
+    'C02': {
+        'abi_module': 'AbiC02',
+        'stages': quick_thorough(
+            [{'name': 'names', 'sub': 'c02sov', 'n': 2000},
+             {'name': 'hostile', 'sub': 'c02hostile', 'n': 36, 'timeout': 900}],
+            [{'name': 'names', 'sub': 'c02sov', 'n': 100000},
+             {'name': 'hostile', 'sub': 'c02hostile', 'n': 400, 'timeout': 3000}]),
+        'assumptions': ["bounded time is modelled as iteration bounds (258 guard-page steps, 4096 dynamic entries, 4096 link_map entries) and observed with an 8 s watchdog",
+                        "hostile ELF bytes are additionally covered by the C14 sweep, hostile linker data by the C18 stage, the /dev rule by the C08 stage (inotify on a /dev/shm mapping)"],
+        'partial': 'per-component totality theorems; there is no theorem about the composition of all steps of generate_dump (no whole-dump model), so the whole-dump claim rests on the hostile-world stage; panics inside goblin / procfs-core / std are outside the model (K2 is recorded)',
+    },
+    'C01': {
+        'abi_module': 'AbiC01',
+        'stages': quick_thorough(
+            [{'name': 'live', 'sub': 'c01', 'n': 30, 'timeout': 600}],
+            [{'name': 'live', 'sub': 'c01', 'n': 900, 'timeout': 3000}]),
+        'assumptions': ["the abstraction of a real image (which objects the stored offsets designate, with the lengths their own headers declare) is computed by the harness's independent decoder; the Coq predicate judges that abstraction",
+                        "images below 4 GiB (RVA width of the format)"],
+        'partial': 'the builder invariant is proved for the reduced dump of MiniDump.v (thread list, application memory, memory list, exception); the other stream writers use the same primitives (C16 laws) but are not inside that model; that the predicate holds of the model image is validated at run time, not a lemma',
+    },
     'C13': {
         'abi_module': 'AbiC13',
         'stages': quick_thorough(
